@@ -2,15 +2,16 @@
 # sweep_target.sh [ids...] : run the quick check of each seed's own property against the seeded change
 # (scratch worktree + PYVC_REPO), result line appended to /tmp/sweep_out/<id>.txt ("<prop> exit=<code> <obligations>")
 out=/tmp/sweep_out; mkdir -p $out
-cd /verif
-ids=${*:-$(ls /verif/seeded | grep -v "^_")}
+here=$(cd "$(dirname "$0")/.." && pwd)
+cd $here
+ids=${*:-$(ls $here/seeded | grep -v "^_")}
 for id in $ids; do
   p=${id%%-*}
   grep -q "^$p " $out/$id.txt 2>/dev/null && continue
   wt=/tmp/swt_$id
   git -C /repo worktree remove --force $wt >/dev/null 2>&1
   git -C /repo worktree add --detach $wt HEAD >/dev/null 2>&1 || continue
-  if ! git -C $wt apply /verif/seeded/$id/patch.diff; then echo "patch does not apply" > $out/$id.txt; git -C /repo worktree remove --force $wt; continue; fi
+  if ! git -C $wt apply $here/seeded/$id/patch.diff; then echo "patch does not apply" > $out/$id.txt; git -C /repo worktree remove --force $wt; continue; fi
   res=$(PYVC_REPO=$wt PYVC_OUT_DIR=/tmp/sweep_ev_$id ./check $p 2>&1); code=$?
   names=$(echo "$res" | grep "^VIOLATION" | sed -E 's/.*replays\/C[0-9]+_//; s/_[0-9a-f]{10}\.json.*//' | sort -u | tr '\n' ' ')
   und=$(echo "$res" | grep -c "^UNDECIDED")
